@@ -703,6 +703,62 @@ def random_case(ctx, i, rng):
     ctx.sample({"random": [cell, gdim, itype, sorted(elems)], "integrand": safe_str(pieces[0][1], 240), "true_degree": pieces[0][2]}, limit=3)
 
 
+def shape_derivative_case(ctx, rng):
+    """Shape derivatives: derivative(I*dx, x, V) keeps a CoordinateDerivative node until compute_form_data has pulled
+    everything back; the degree is estimated on that node (integrand degree + direction degree), the true degree is
+    measured on the delivered, fully expanded integrand."""
+    cell, gdim = rng.choice([("interval", 1), ("triangle", 2), ("triangle", 2), ("tetrahedron", 3)])
+    U = universe(rng, cell, gdim, "cell", ["P1", "P2"] + (["P3"] if "P3" in pool(cell, gdim) else []))
+    G = PolyGen(U, rng, poly=True, deriv=rng.choice([0, 0, 1]), geom=False, compound=False, index=rng.random() < 0.5)
+    try:
+        integrand, _ = G.integrand(0, depth=rng.choice([1, 1, 2]), space_names=sorted(U.spaces)[:2])
+        dv = rng.choice([1, 2, 3, 3, 4])
+        V = ufl.Coefficient(ufl.FunctionSpace(U.mesh, E.P(cell, dv, (gdim,))))
+        form = ufl.derivative(integrand * ufl.dx(domain=U.mesh), ufl.SpatialCoordinate(U.mesh), V)
+        cd_node = form.integrals()[0].integrand()
+    except Exception as ex:
+        ctx.count("build_refused")
+        ctx.covered("build_refused_with", type(ex).__name__ + ":shape-derivative")
+        return
+    ctx.count("shape_derivative_cases")
+    try:
+        fd = compute_form_data(form, do_apply_function_pullbacks=True, do_apply_geometry_lowering=True, do_apply_integral_scaling=True,
+                               do_estimate_degrees=True, do_append_everywhere_integrals=False)
+        outs = [itg for ida in fd.integral_data for itg in ida.integrals]
+    except BaseException as ex:
+        if isinstance(ex, (KeyboardInterrupt, SystemExit)) or type(ex).__name__ == "CaseTimeout":
+            raise
+        ctx.count("compute_form_data_refused")
+        ctx.covered("compute_form_data_refused_with", type(ex).__name__ + ": " + str(ex)[:50])
+        return
+    if len(outs) != 1:
+        ctx.count("shape_derivative_vanished" if not outs else "shape_derivative_several_integrals")
+        return
+    probes = probes_for(rng, cell, gdim, "cell")
+    try:
+        true = measure(ctx, outs[0].integrand(), probes)
+    except Skip as s_:
+        ctx.count("skipped")
+        ctx.covered("skipped_because", "shape-derivative:" + s_.why)
+        return
+    d = outs[0].metadata().get("estimated_polynomial_degree", -1)
+    info = {"cell": cell, "gdim": gdim, "itype": "cell", "direction_degree": dv, "hetero": False, "elements": sorted(U.spaces), "arity": 0}
+    if not isinstance(d, int):
+        ctx.count("cfd_estimate_not_an_int")
+        return
+    record(ctx, "compute_form_data", cd_node, d, true, info, classes=False)
+    ctx.count("shape_derivative_judged")
+    if d < true:
+        st, d0, _fb = estimate(cd_node)
+        ctx.violation("C18/underestimate/CoordinateDerivative/shape-derivative",
+                      f"delivered estimated_polynomial_degree {d} < true degree {true} of the expanded shape derivative (direct estimate of the "
+                      f"CoordinateDerivative node: {d0 if st == 'ok' else st}; direction of degree {dv})",
+                      dict(info, integrand=safe_str(integrand, 500), expanded=safe_str(outs[0].integrand(), 900), delivered=d, true_degree=true,
+                           world=probes[0].describe()))
+    else:
+        ctx.count("shape_derivative_held")
+
+
 def decorate(rng, U, G, e):
     """Multiply a generated integrand by the polynomial operators the generator's polynomial profile leaves out
     (as factors, so that the integrand stays linear in its arguments)."""
@@ -732,6 +788,8 @@ def case(ctx, i, rng):
     if pos < 3 and k < n:
         ctx.count("sweep_cases")
         sweep_case(ctx, k, rng)
+    elif rng.random() < 0.12:
+        shape_derivative_case(ctx, rng)
     else:
         ctx.count("random_cases")
         random_case(ctx, i, rng)
